@@ -48,7 +48,12 @@ type result struct {
 	WErr    string   `json:"write_err,omitempty"`
 	Given   int64    `json:"given_expiry,omitempty"`
 	Obs     []obsv   `json:"observations"`
+	// Bystanders: items without an expiry stored next to the timed one; what is left of them at the end
+	BystandersLive   []string `json:"bystanders_live"`
+	BystandersStored []string `json:"bystanders_stored"`
 }
+
+var bystanders = []string{"by1", "by2", "by3", "byrule"}
 
 func runScenario(s scenario, idx int) result {
 	res := result{S: s}
@@ -69,12 +74,24 @@ func runScenario(s scenario, idx int) result {
 	case "expires-rfc3339":
 		res.Given = now + int64(s.Ahead)
 		item["expires"] = time.Unix(res.Given, 0).UTC().Format(time.RFC3339)
+	case "expires-rfc3339-east", "expires-rfc3339-west":
+		// the same instant written with a numeric zone offset
+		res.Given = now + int64(s.Ahead)
+		zone := time.FixedZone("east", 3*3600)
+		if s.Encoding == "expires-rfc3339-west" {
+			zone = time.FixedZone("west", -5*3600)
+		}
+		item["expires"] = time.Unix(res.Given, 0).In(zone).Format(time.RFC3339)
 	case "ttl-num":
 		item["ttl"] = float64(s.Ahead)
 	case "ttl-dur":
 		item["ttl"] = fmt.Sprintf("%ds", s.Ahead)
 	}
 	ctx := drv.Ctx()
+	for _, b := range bystanders[:3] {
+		loc.AddFact(ctx, b, core.Map{"what": "timed", "bystander": b})
+	}
+	loc.AddRule(ctx, "byrule", core.Map{"when": map[string]interface{}{"pattern": map[string]interface{}{"tick": "tock"}}, "action": map[string]interface{}{"code": "'bystander'"}})
 	res.WBefore = time.Now().Unix()
 	if s.Kind == "fact" {
 		item["what"] = "timed"
@@ -175,6 +192,18 @@ func runScenario(s scenario, idx int) result {
 		st.Unlock()
 		res.Obs = append(res.Obs, o)
 	}
+	for _, b := range bystanders {
+		if _, err := loc.GetFact(drv.Ctx(), b); err == nil {
+			res.BystandersLive = append(res.BystandersLive, b)
+		}
+	}
+	st.Lock()
+	for _, b := range bystanders {
+		if _, ok := st.State(nil)[name][b]; ok {
+			res.BystandersStored = append(res.BystandersStored, b)
+		}
+	}
+	st.Unlock()
 	return res
 }
 
@@ -191,7 +220,7 @@ func judge(r *rep.Report, res result) {
 	s := res.S
 	wit := rep.J{"result": res}
 	if res.WErr != "" {
-		if s.Kind == "rule" && s.Encoding == "expires-rfc3339" {
+		if s.Kind == "rule" && strings.HasPrefix(s.Encoding, "expires-rfc3339") {
 			// Rule.expires is a number: an RFC3339 expiry on a rule is refused by AddRule.
 			// A refused write is not an observation (DESIGN §5 C07).
 			r.Count("refused_rule_rfc3339", 1)
@@ -202,9 +231,12 @@ func judge(r *rep.Report, res result) {
 		r.Violate("", "writing an item with a future expiry failed: "+res.WErr, wit)
 		return
 	}
+	if len(res.BystandersLive) != len(bystanders) || len(res.BystandersStored) != len(bystanders) {
+		r.Violate("", "items without an expiry that were stored next to the timed item are gone at the end of the schedule", wit)
+	}
 	var lo, hi int64 // E lies in [lo, hi]
 	switch s.Encoding {
-	case "expires-num", "expires-rfc3339":
+	case "expires-num", "expires-rfc3339", "expires-rfc3339-east", "expires-rfc3339-west":
 		lo, hi = res.Given, res.Given
 	case "ttl-num", "ttl-dur":
 		lo, hi = res.WBefore+int64(s.Ahead), res.WAfter+int64(s.Ahead)
@@ -290,7 +322,7 @@ func main() {
 	rounds := e.Pick(1, 3)
 	for round := 0; round < rounds; round++ {
 		for _, kind := range []string{"fact", "rule"} {
-			for _, enc := range []string{"expires-num", "expires-rfc3339", "ttl-num", "ttl-dur", "none"} {
+			for _, enc := range []string{"expires-num", "expires-rfc3339", "expires-rfc3339-east", "expires-rfc3339-west", "ttl-num", "ttl-dur", "none"} {
 				for _, state := range drv.Kinds {
 					for variant := 0; variant < 5; variant++ {
 						ahead := 3 + g.Intn(2)
@@ -307,13 +339,13 @@ func main() {
 						case 1: // reload immediately, reads around E, reload after E
 							steps = []string{"50:reload", "300:" + a(), fmt.Sprintf("%d:%s", E-1500, a()), fmt.Sprintf("%d:reload", E+1100), fmt.Sprintf("%d:%s", E+1300, a()), fmt.Sprintf("%d:%s", E+1500, a())}
 						case 4: // one kind of observation only, nothing else touches the item in between (a rule that
-						// was dispatched before its expiry sits in the parsed-rule cache when the expiry passes)
-						one := a()
-						if kind == "rule" {
-							one = "dispatch"
-						}
-						steps = []string{"150:" + one, fmt.Sprintf("%d:%s", E-1300, one), fmt.Sprintf("%d:%s", E+1200, one), fmt.Sprintf("%d:%s", E+1500, one)}
-					case 3: // the storage fails exactly when the expired item is first seen
+							// was dispatched before its expiry sits in the parsed-rule cache when the expiry passes)
+							one := a()
+							if kind == "rule" {
+								one = "dispatch"
+							}
+							steps = []string{"150:" + one, fmt.Sprintf("%d:%s", E-1300, one), fmt.Sprintf("%d:%s", E+1200, one), fmt.Sprintf("%d:%s", E+1500, one)}
+						case 3: // the storage fails exactly when the expired item is first seen
 							steps = []string{"150:" + a(), fmt.Sprintf("%d:fault-%s", E+1200, a()), fmt.Sprintf("%d:%s", E+1400, a()), fmt.Sprintf("%d:%s", E+1500, a())}
 						default: // reads only, dense around the boundary second
 							steps = []string{"100:" + a(), fmt.Sprintf("%d:%s", E-1200, a()), fmt.Sprintf("%d:%s", E-200, a()), fmt.Sprintf("%d:%s", E+300, a()), fmt.Sprintf("%d:%s", E+1100, a()), fmt.Sprintf("%d:reload", E+1200), fmt.Sprintf("%d:%s", E+1400, a())}
@@ -343,10 +375,12 @@ func main() {
 		loc, _ := drv.NewLoc("X", state, drv.MustMem())
 		past := time.Now().Unix() - 5
 		for name, item := range map[string]core.Map{
-			"expires-num":     {"what": "old", "expires": float64(past)},
-			"expires-rfc3339": {"what": "old", "expires": time.Unix(past, 0).UTC().Format(time.RFC3339)},
-			"ttl-negative":    {"what": "old", "ttl": -2.0},
-			"ttl-zero-dur":    {"what": "old", "ttl": "-3s"},
+			"expires-num":          {"what": "old", "expires": float64(past)},
+			"expires-rfc3339":      {"what": "old", "expires": time.Unix(past, 0).UTC().Format(time.RFC3339)},
+			"expires-rfc3339-east": {"what": "old", "expires": time.Unix(past, 0).In(time.FixedZone("east", 3*3600)).Format(time.RFC3339)},
+			"expires-rfc3339-west": {"what": "old", "expires": time.Unix(past, 0).In(time.FixedZone("west", -5*3600)).Format(time.RFC3339)},
+			"ttl-negative":         {"what": "old", "ttl": -2.0},
+			"ttl-zero-dur":         {"what": "old", "ttl": "-3s"},
 		} {
 			_, err := loc.AddFact(drv.Ctx(), "old", item)
 			r.Case(true, "expired-write"+state+name)
